@@ -14,6 +14,13 @@
 //! awaiting-threshold queue and the irrevocable conclusions (hook), the multiset of Events, the height
 //! at which each Event first appears, list_channels().len().
 //!
+//! Fork groups are delivered twice: with monitor/manager events polled after every delivery call (a
+//! running background processor; this is what the model is compared with) and polled only at the
+//! checkpoints (a reorg processed in one batch).  Two genuine deviations found this way are tagged
+//! KF-C11-1 / KF-C11-2 (see known_findings.txt) and reported once per (scenario, fork shape).
+//! In fork groups the helper's `TransactionsFirstReorgsOnlyTip` disconnection is followed by
+//! `best_block_updated(fork point)` (see `Replay::fork`).
+//!
 //! Correspondence with the Lean model (model `c11`): every util call is written as the abstract ops
 //! the style performs on the monitor; the model answers the monitor's (best, awaiting, matured) after
 //! the call; the real answer comes from `verif_hooks::monitor_onchain_view`.
